@@ -402,6 +402,7 @@ def part_b(ctx):
     part_b_vectors(ctx)
     part_b_outputs(ctx)
     part_b_vector_argument(ctx)
+    part_b_extreme(ctx)
 
 
 REPLAY_QVEC = r'''
@@ -563,6 +564,70 @@ print("vector", scales, own, "declared length ->", "entered" if got else "refuse
 if got != want:
     print("REPRODUCED"); sys.exit(1)
 '''
+
+
+EXTREME_SRC = r"""
+import sympy as sp
+from sympy.physics import units
+from symplyphysics import Quantity, validate_input, validate_output
+from symplyphysics.core.dimensions import assert_equivalent_dimension
+from symplyphysics.core.errors import UnitsError
+from symplyphysics.core.vectors.vectors import QuantityVector
+def extreme_bad():
+    # "the verdict never depends on the magnitude": non-zero magnitudes far outside the range of a machine double (exact rationals and
+    # arbitrary-precision floats, 1e-400 .. 1e400) are still non-zero.  A finite list, executed concretely: the lifted runs know a magnitude
+    # only as a real number and cannot see a conversion to float inside the code
+    bad = []
+    tiny = [sp.Rational(1, 10**400), sp.Float("1e-400", 30), sp.Rational(-1, 10**330), sp.Rational(7, 10**324)]
+    huge = [sp.Integer(10)**400, sp.Float("-1e400", 30)]
+    entered = []
+    @validate_input(a=units.length)
+    @validate_output(units.length)
+    def same(a):
+        entered.append(1); return a
+    @validate_input(a=units.length)
+    def seq(a):
+        entered.append(1); return 0
+    @validate_output(units.length)
+    def out(x):
+        return x
+    def outcome(call):
+        try:
+            call(); return "accepted"
+        except UnitsError: return "UnitsError"
+        except TypeError: return "TypeError"
+        except Exception as e: return "raised " + type(e).__name__
+    for m in tiny + huge:
+        lab = str(sp.N(m, 4))
+        q_len, q_time = Quantity(m * units.meter), Quantity(m * units.second)
+        cases = [("bare number for a length", lambda: assert_equivalent_dimension(m, "p", "f", units.length), "TypeError"),
+                 ("time quantity for a length (assert_equivalent_dimension)", lambda: assert_equivalent_dimension(q_time, "p", "f", units.length), "UnitsError"),
+                 ("length quantity for a length", lambda: same(q_len), "accepted"),
+                 ("time quantity for a length (positional)", lambda: same(q_time), "UnitsError"),
+                 ("time quantity for a length (keyword)", lambda: same(a=q_time), "UnitsError"),
+                 ("bare number for a length (decorated)", lambda: same(m), "TypeError"),
+                 ("sequence element of another dimension", lambda: seq([Quantity(1 * units.meter), q_time]), "UnitsError"),
+                 ("vector component of another dimension", lambda: seq(QuantityVector([Quantity(1 * units.second), q_time], dimension=units.time)), "UnitsError"),
+                 ("result of another dimension", lambda: out(q_time), "UnitsError"),
+                 ("bare-number result", lambda: out(m), "TypeError")]
+        for what, call, want in cases:
+            got = outcome(call)
+            if got != want:
+                bad.append(f"magnitude {lab}: {what}: {got}, expected {want}")
+        if not sp.sympify(q_time.dimension).equals(units.time) and q_time.dimension != units.time:
+            bad.append(f"magnitude {lab}: Quantity(m*second) has dimension {q_time.dimension}")
+    return bad
+"""
+
+
+def part_b_extreme(ctx):
+    ns = {}
+    exec(EXTREME_SRC, ns)
+    bad = ns["extreme_bad"]()
+    if bad:
+        ctx.violation("C04:B:extreme-magnitudes", "; ".join(bad[:4]) + f" ({len(bad)} cases)", EXTREME_SRC + "\nimport sys\nb = extreme_bad()\nprint(b[:8])\nif b:\n    print('REPRODUCED'); sys.exit(1)\n")
+    else:
+        ctx.ob("B:non-zero magnitudes outside the double range (1e-400 .. 1e400) get the verdict of any other non-zero magnitude (6 magnitudes x 10 gate situations)", "discharged", nontrivial=False)
 
 
 def part_b_vector_argument(ctx):
